@@ -12,4 +12,7 @@ one() {
   echo "$id: target=$tgt caught-by:$c$miss"
 }
 export -f one
-ls -d seeded/*/ | xargs -P ${JOBS:-3} -I{} bash -c 'one {}' | sort
+# each result is appended to a scratch file as it arrives (a killed run keeps what it had); ONLY=regex restricts the seeds
+tmp=$(mktemp /tmp/seedall.XXXXXX)
+ls -d seeded/*/ | grep -E "${ONLY:-.}" | xargs -P ${JOBS:-3} -I{} bash -c 'one {} >> '$tmp
+sort $tmp; rm -f $tmp
